@@ -843,6 +843,16 @@ func (e *entFn) caseGuard(sw *ast.SwitchStmt, cc *ast.CaseClause) Formula {
 			ks := keyCtx{e: e, s: &site{pos: sw.Tag.End(), anc: sw}}
 			var objs []types.Object
 			ks.objs = &objs
+			if tt, ok := e.info.Types[sw.Tag]; ok && isIntType(tt.Type) {
+				if tv, ok := e.info.Types[x]; ok && tv.Value != nil && tv.Value.Kind() == constant.Int {
+					if cv, ok := constant.Int64Val(tv.Value); ok {
+						// same encoding as cond uses for integer comparisons with constants
+						l := ks.norm(sw.Tag)
+						g = append(g, And{e.noteAtom(gtAtom(l, cv-1), objs), Not{e.noteAtom(gtAtom(l, cv), objs)}})
+						continue
+					}
+				}
+			}
 			g = append(g, e.noteAtom(Atom("eq("+ks.key(sw.Tag)+","+ks.key(x)+")"), objs))
 		}
 	}
